@@ -8,7 +8,7 @@ PROP = dict(
           "(and attempts at a second holder of a one-to-one link); then requests from both sides: related lists, parents, by-foreign-key filters, filters through the relation in both directions "
           "(with and without the related documents selected), aggregates over related documents (with filters), ordering by a related field, ordered + limited sub-selections, parents ordered by own field, "
           "top-level aggregates filtered through the relation, two-hop reads down and up and a two-hop filter. Every request is answered by both twins (must agree) and by the model from the documents' own "
-          "relation fields; after every one-to-one write the raw foreign keys are checked for a double link; a case is one history; distinct = distinct histories"),
+          "relation fields; after every one-to-one write the raw foreign keys are checked for a double link; a case is one history; distinct = distinct histories; index variants on the parent's fields only and on the child's fields only; requests with a condition on the parent next to one on the child's own field, `_ne` through the relation, a count of all related documents next to a relation filter, and docID arguments on either side and on the related list"),
     assumptions=[
         "documents that tie on an ordering key may come in any order: ordered answers are compared as key sequences",
         "a related document that is deleted counts as absent from both sides (the child keeps its foreign key)",
